@@ -288,9 +288,62 @@ class Oracles:
             self.used[f"named:{f.qualname}:{cls.rsplit('.', 1)[-1]}"] = why
         return why
 
+    # -- td(seconds=X.payload[K]) where every parser's value for key K is bounded ----------------------
+
+    def bounded_payload_value(self, f: FuncInfo, node: ast.AST, cls: str) -> str | None:
+        if not (isinstance(node, ast.Call) and cls.endswith("OverflowError") and ast.unparse(node.func) in ("td", "timedelta")):
+            return None
+        ea = getattr(self, "ea", None)
+        if ea is None:
+            return None
+        total = 0.0
+        unit = {"days": 86400.0, "seconds": 1.0, "minutes": 60.0, "hours": 3600.0, "weeks": 604800.0}
+        for k in node.keywords:
+            v = k.value
+            if not (k.arg in unit and isinstance(v, ast.Subscript) and isinstance(v.value, ast.Attribute) and v.value.attr == "payload"):
+                return None
+            try:
+                key = self.consts.eval_in(f, v.slice)
+            except Exception:
+                return None
+            if not isinstance(key, str):
+                return None
+            bounds = []
+            for g in self.ctx.repo.funcs.values():
+                if g.module.name != "ramses_tx.parsers":
+                    continue
+                for d in ast.walk(g.node):
+                    if isinstance(d, ast.Dict):
+                        for kk, vv in zip(d.keys, d.values):
+                            if kk is None:
+                                continue
+                            try:
+                                kv = self.consts.eval_in(g, kk)
+                            except Exception:
+                                continue
+                            if kv == key:
+                                saved = ea._f
+                                ea._f = g
+                                try:
+                                    b = ea._num_bound(vv)
+                                finally:
+                                    ea._f = saved
+                                if b is None:
+                                    return None
+                                bounds.append(b)
+            if not bounds:
+                return None
+            total += max(bounds) * unit[k.arg]
+        if node.args or not node.keywords or total >= 86399999999999:
+            return None
+        why = f"every parser value stored under the payload key(s) is bounded: |interval| <= {total:.1f} s"
+        self.used[f"bounded-payload:{f.qualname}:{ast.unparse(node)[:50]}"] = why
+        return why
+
     def discharge(self, f: FuncInfo, node: ast.AST, cls: str, detail: str = "") -> str | None:
         return (
-            self.dead_table_raise(f, node, cls)
+            self.bounded_payload_value(f, node, cls)
+            or self.dead_table_raise(f, node, cls)
             or self.table_regex(f, node, cls)
             or self.subset_guard(f, node, cls)
             or self.nonempty_pop(f, node, cls)
